@@ -192,7 +192,7 @@ impl SchemaW {
     }
 
     /// independent schema check of one live entry
-    fn check_entry(schema: &dyn SchemaTransaction, e: &SE) -> Vec<(String, String)> {
+    pub fn check_entry(schema: &dyn SchemaTransaction, e: &SE) -> Vec<(String, String)> {
         let mut out = Vec::new();
         let id = e.get_ava_set(Attribute::Name).and_then(|v| v.to_proto_string_clone_iter().next()).unwrap_or_else(|| e.get_uuid().to_string());
         let classes: Vec<String> = e.get_ava_set(Attribute::Class).map(|v| v.to_proto_string_clone_iter().collect()).unwrap_or_default();
